@@ -52,7 +52,14 @@ class C19(Check):
             frs = self.frag_alpha(m)
             out += [("scan", i, k, m) for i in range(len(frs))]
         out += [("cli", i) for i in range(4)]
+        out += [("keyeq", i) for i in range(len(self.frag_keyeq()))]
+        out.append(("clifiles",))
         return out
+
+    @staticmethod
+    def frag_keyeq():
+        """contig names that differ but have the same natural-sort key (1 == 01 == I)"""
+        return [(n, a, b, 1) for n in ("ctg_1", "ctg_01", "ctg_I") for a, b in intervals(3)]
 
     @staticmethod
     def frag_alpha(m):
@@ -270,6 +277,74 @@ class C19(Check):
             ctx.sample({"scan": [list(frs[i]), list(frs[0])], "layouts": "one scaffold +-gaps, split in two at every point"})
         elif kind == "cli":
             self.check_cli(shard[1], ctx)
+        elif kind == "keyeq":
+            frs = self.frag_keyeq()
+            for tail in itertools.product(frs, repeat=2):
+                self.check_scan((frs[shard[1]], *tail), ctx)
+            ctx.sample({"scan": "three fragments over contig names ctg_1 / ctg_01 / ctg_I (equal natural-sort keys)"})
+        elif kind == "clifiles":
+            self.check_cli_files(ctx)
+
+    def check_cli_files(self, ctx, only=None):
+        """several input files in one asm-format --qc-overlaps invocation: same file name in different directories, --name"""
+        import shutil
+        import tempfile
+        from pathlib import Path
+
+        from click.testing import CliRunner
+
+        from tola.assembly.scripts.asm_format import cli
+
+        asms = {
+            "A": [[("a", 1, 3, 1), ("a", 2, 4, 1)]],
+            "B": [[("b", 1, 2, 1), ("a", 5, 6, -1)], [("b", 2, 2, 1)]],
+            "C": [[("a", 1, 2, 1), ("b", 1, 2, 1)]],
+            "D": [[("a", 7, 9, 1)], [("a", 9, 9, 1), ("a", 8, 8, -1)]],
+        }
+        base = "/dev/shm" if Path("/dev/shm").is_dir() else None
+        d = Path(tempfile.mkdtemp(prefix="verif_c19_", dir=base))
+        runner = CliRunner()
+        try:
+            for k in (2, 3):
+                for sel in itertools.permutations(sorted(asms), k):
+                    for naming in ("same-file-name", "distinct-file-names", "--name"):
+                        case = ["clifiles", list(sel), naming]
+                        if only is not None and case != only:
+                            continue
+                        ctx.cur = case
+                        ctx.evaluations += 1
+                        paths, want = [], []
+                        for i, key in enumerate(sel):
+                            asm, objs = self.build(asms[key], True)
+                            sub_ = d / f"d{i}"
+                            sub_.mkdir(exist_ok=True)
+                            pth = sub_ / ("x.agp" if naming != "distinct-file-names" else f"x{i}.agp")
+                            with pth.open("w") as fh:
+                                format_agp(asm, fh)
+                            paths.append(str(pth))
+                            for a in range(len(objs)):
+                                for b in range(a + 1, len(objs)):
+                                    f, g = objs[a][0], objs[b][0]
+                                    if f.name == g.name and max(f.start, g.start) <= min(f.end, g.end):
+                                        want.append(f"{objs[a][1].name} {f}\n{objs[b][1].name} {g}")
+                        if want:
+                            ctx.nontrivial += 1
+                        argv = ["--qc-overlaps", *paths] + (["--name", "n"] if naming == "--name" else [])
+                        r = runner.invoke(cli, argv)
+                        try:
+                            err = r.stderr
+                        except ValueError:
+                            err = r.output
+                        blocks = err.split("\nOverlap:\n")[1:] if "Overlap:" in err else []
+                        got = sorted(b.strip("\n").split("\n\n")[0] for b in blocks)
+                        if r.exit_code != 0:
+                            ctx.violation("cli-exit/several-files", case, f"exit {r.exit_code}: {err[-300:]!r}")
+                        elif got != sorted(want):
+                            ctx.violation("cli-overlap-report/several-files", case, f"got {got!r} expected {sorted(want)!r}")
+                        ctx.outcome(h64((case, sorted(want))))
+            ctx.sample({"clifiles": "2-3 AGP files per asm-format --qc-overlaps invocation", "namings": ["same-file-name", "distinct-file-names", "--name"]})
+        finally:
+            shutil.rmtree(d, ignore_errors=True)
 
     def replay(self, case, ctx):
         kind = case[0]
@@ -282,6 +357,10 @@ class C19(Check):
         elif kind == "cli":
             for part in range(4):
                 self.check_cli(part, ctx)
+        elif kind == "clifiles":
+            self.check_cli_files(ctx, only=case)
 
 
 CHECK = C19()
+# scope added in later rounds, kept in the evidence text
+CHECK.rule += ' Scan over contig names with equal natural-sort keys (ctg_1, ctg_01, ctg_I). CLI with 2-3 input files per invocation (same file name in different directories, distinct names, --name): stderr lists the pairs of every file.'
